@@ -28,7 +28,7 @@ RULE = (
     'complete Cartesian products: (certification set x altitude x Mach x scale) with the whole '
     'fuel-flow alphabet (every branch point and +-1 ulp) evaluated as one vector per case; ISA altitude '
     'alphabet x call form; smoke-number^4 x engine type x bypass ratio; sulfur x yield; FOA3 thrust x HC; '
-    'MEEM engine variant x altitude x Mach x scale; all 75 relative orders (with ties) of the four calibration flows; every function x representation of its numeric inputs (float64/float32/int64/int32 arrays, strided / reversed / read-only / byte-swapped views; lists, tuples, Python and numpy scalars, 0-d arrays for the functions documented for scalars); degenerate calibration-flow rows (single point, three equal, pairs, blank cells) x index rows x altitude; every optional parameter of the FFM2 correction (omitted / default / two other values each, keyword and positional); ordered pairs of certification sets x altitude pairs evaluated on ONE set of argument objects refilled in place four times; every SCOPE11 case '
+    'MEEM engine variant x altitude x Mach x scale; all 75 relative orders (with ties) of the four calibration flows; near-degenerate certification data (a flow or index placed 1 ulp ... 1e-3 absolute / relative next to its neighbour, for engines from a few g/s to several kg/s); every function x representation of its numeric inputs (float64/float32/int64/int32 arrays, strided / reversed / read-only / byte-swapped views; lists, tuples, Python and numpy scalars, 0-d arrays for the functions documented for scalars); degenerate calibration-flow rows (single point, three equal, pairs, blank cells) x index rows x altitude; every optional parameter of the FFM2 correction (omitted / default / two other values each, keyword and positional); ordered pairs of certification sets x altitude pairs evaluated on ONE set of argument objects refilled in place four times; every SCOPE11 case '
     'also runs a fixed call sequence (five short-lived argument objects, then one mutable object edited in place four times). A case is non-trivial when at least one value was '
     'compared with the reference (or a documented refusal was observed); distinct = distinct case'
 )
@@ -37,6 +37,10 @@ ASSUMPTIONS = [
     'than 1e-6 relative; value comparison needs positive flows (and, for NOx, two distinct ones; a single-point calibration is '
     'compared only at the calibration flow); rows with zero (blank) flows and single-point rows are otherwise judged by the '
     'sanity clauses only (no exception, shapes, finite, non-negative, speciation sum, exact category)',
+    'near-degenerate data (sub-lattice near): HC/CO values are compared with the tolerance-free reference only when the idle and '
+    'approach flows are exactly equal or at least 1e-6 apart relatively, the raw lower-line slope is exactly 0 or at least 1e-6 in '
+    'magnitude, and the evaluation point has |slope ln(ff/ff_idle)| <= 100; the tolerance there is 1e-9 + 4e-15 |exponent| / separation; '
+    'NOx is compared when the calibration flows spread by at least 1 %; below those bounds only no-exception / shape / no-NaN / non-negative',
     'for fuel flows <= 0 only finiteness / non-negativity / category are checked (the log-log methods are undefined there)',
     'BFFM2 NOx reference is the single log-log least-squares line stated in the code comment (pinned by '
     'tests/test_emission_functions.py::test_matches_reference_component_values), not the point-to-point fit of the paper',
@@ -201,6 +205,24 @@ ORDER_VALUES = [0.11, 0.343, 1.031, 1.293]
 FLOW_ORDERINGS = _weak_orderings(4)  # every relative order (with ties) of idle/approach/climb/take-off flows
 
 
+# near-degenerate certification data: one quantity placed next to another at a given distance
+NEAR_BASES = {
+    # flows of a few g/s (small turbofan / APU-sized), tenths of a kg/s, the shipped engine, a large engine
+    'few-g-per-s': _cs((0.004, 0.013, 0.04, 0.05), _SHIP_NOX, _SHIP_HC, _SHIP_CO),
+    'small': _cs((0.02, 0.06, 0.18, 0.22), _SHIP_NOX, (6.0, 0.4, 0.05, 0.06), (40.0, 6.0, 0.8, 0.9)),
+    'shipped': _cs(_SHIP_FF, _SHIP_NOX, _SHIP_HC, _SHIP_CO),
+    'large': _cs((0.3, 1.0, 3.0, 3.7), (5, 12, 30, 45), (2.0, 0.1, 0.05, 0.04), (20, 2, 0.2, 0.25)),
+}
+NEAR_WHAT = ['ff:approach~idle', 'ff:climb~approach', 'ff:takeoff~climb', 'ff:all~idle', 'ei:approach~idle', 'ei:takeoff~climb']
+NEAR_DIST = ['ulp', 1e-12, 1e-9, 1e-6, 1e-4, 1e-3]
+NEAR_MODE = ['absolute', 'relative']
+NEAR_SIGN = [1, -1]
+NEAR_ALTS = [0.0, 12000.0]
+# conditioning bounds of the comparison (see ASSUMPTIONS)
+NEAR_MIN_SEP = 1e-6
+NEAR_MAX_EXPONENT = 100.0
+
+
 # representation of numeric inputs. Array representations apply to every function; sequence and scalar
 # representations to the functions documented as taking 'float or array' (they convert with np.asarray).
 REPR_ARRAY = ['float64', 'float32', 'int64', 'int32', 'strided-view', 'reversed-view', 'read-only', 'non-native-byteorder']
@@ -344,6 +366,24 @@ def sublattices(tier, seed):
             'name': 'degenerate: calibration-flow row (all equal / three equal / pairs / blank cells) x index row x altitude (fuel-flow vector inside)',
             'axes': {'row': list(DEGENERATE_ROWS), 'ei': list(DEGENERATE_EIS), 'h': DEGENERATE_ALTS},
             'cases': [{'k': 'degen', 'row': r, 'ei': e, 'h': h} for r in DEGENERATE_ROWS for e in DEGENERATE_EIS for h in DEGENERATE_ALTS],
+        }
+    )
+    subs.append(
+        {
+            'name': 'near: base set x which quantity sits next to which x distance x absolute/relative x side x altitude (fuel-flow vector inside)',
+            'axes': {'base': list(NEAR_BASES), 'what': NEAR_WHAT, 'dist': NEAR_DIST, 'mode': NEAR_MODE, 'sign': NEAR_SIGN, 'h': NEAR_ALTS},
+            'cases': [
+                {'k': 'near', 'base': b, 'what': w, 'dist': d, 'mode': mo, 'sign': sg, 'h': h}
+                for b in NEAR_BASES for w in NEAR_WHAT for d in NEAR_DIST for mo in NEAR_MODE for sg in NEAR_SIGN for h in NEAR_ALTS
+            ],
+        }
+    )
+    nsn = [5e-324, 1e-12, 1e-9, 1e-6, 1e-4, 1e-3]
+    subs.append(
+        {
+            'name': 'near-sn: one smoke number just above the no-measurement value 0 x mode x engine type',
+            'axes': {'sn': nsn, 'mode': list(R.MODES), 'et': ['TF', 'MTF']},
+            'cases': [{'k': 'nearsn', 'sn': x, 'mode': i, 'et': et} for x in nsn for i in range(4) for et in ('TF', 'MTF')],
         }
     )
     rcases = []
@@ -842,6 +882,172 @@ def _run_cat(case):
                 acc.add('element-dependence', f'category at ff={flows[j]!r}: alone {c0}, in vector {cat_list[j]} ff_cal={ffcal}')
     order = 'idle-thr<=climb-thr' if low <= high else 'idle-thr>climb-thr'
     return {'outcome': f'cat:{order}:{len(set(case["ranks"]))}-distinct-flows', 'nontrivial': acc.compared > 0, 'violations': acc.v}
+
+
+# --------------------------------------------------------------------------- near-degenerate data
+
+
+def _near_place(x, dist, mode, sign):
+    """A value at the given distance from x."""
+    if dist == 'ulp':
+        return NEXT(x, INF if sign > 0 else -INF)
+    return x + sign * dist if mode == 'absolute' else x * (1.0 + sign * dist)
+
+
+def _near_set(case):
+    base = NEAR_BASES[case['base']]
+    ff, hc, co, nox = list(base['ff']), list(base['hc']), list(base['co']), list(base['nox'])
+    w, d, mo, sg = case['what'], case['dist'], case['mode'], case['sign']
+    if w == 'ff:approach~idle':
+        ff[1] = _near_place(ff[0], d, mo, sg)
+    elif w == 'ff:climb~approach':
+        ff[2] = _near_place(ff[1], d, mo, sg)
+    elif w == 'ff:takeoff~climb':
+        ff[3] = _near_place(ff[2], d, mo, sg)
+    elif w == 'ff:all~idle':
+        ff[1] = _near_place(ff[0], d, mo, sg)
+        ff[2] = _near_place(ff[0], d, mo, -sg)
+        ff[3] = _near_place(ff[1], d, mo, sg)
+    elif w == 'ei:approach~idle':
+        for e in (hc, co, nox):
+            e[1] = _near_place(e[0], d, mo, sg)
+    elif w == 'ei:takeoff~climb':
+        for e in (hc, co, nox):
+            e[3] = _near_place(e[2], d, mo, sg)
+    return ff, {'hc': hc, 'co': co, 'nox': nox}
+
+
+def _run_near(case):
+    import warnings
+
+    with warnings.catch_warnings():
+        warnings.simplefilter('ignore')
+        return _run_near_inner(case)
+
+
+def _run_near_inner(case):
+    """Certification data next to every equality / tolerance guard. The published methods have no
+    tolerance, so the scalar reference (which has none) is the judge wherever the comparison is
+    well conditioned:
+      * idle and approach flows exactly equal, or relatively NEAR_MIN_SEP apart or more;
+      * raw lower-line slope exactly 0, or |slope| >= NEAR_MIN_SEP;
+      * evaluation points whose lower-line exponent |slope ln(ff/ff_idle)| <= NEAR_MAX_EXPONENT
+        (beyond it the method's own value leaves the double range);
+      * tolerance widened by the cancellation in the slope: 1e-9 + 4e-15 |exponent| / separation.
+    Outside those bounds only: no exception, shapes, no NaN, non-negative."""
+    S = _STATE
+    acc = _Acc()
+    ffcal, eis = _near_set(case)
+    h = float(case['h'])
+    t, p = R.isa_temperature(h), R.isa_pressure(h)
+    if min(ffcal) <= 0 or any(min(v) <= 0 for v in eis.values()):
+        return {'outcome': 'near:not-positive', 'nontrivial': False, 'violations': []}
+    f_i, f_a, f_c, f_t = ffcal
+    low, high = R.thrust_thresholds(ffcal)
+    vals = [0.0, 0.3 * min(ffcal), 1.3 * max(ffcal), 0.7 * f_i, math.sqrt(f_i * max(f_a, f_i * 1.0000001)), 0.5 * (f_a + f_c), 0.5 * (f_c + f_t)]
+    for x in (f_i, f_a, f_c, f_t, low, high):
+        vals += _pm1(x) + [x * (1 - 1e-3), x * (1 + 1e-3)]
+    flows = sorted(set(float(v) for v in vals if v >= 0))
+    ff = np.array(flows)
+    n = len(ff)
+    tv, pv = np.full(n, t), np.full(n, p)
+    ffv = _tmv(ffcal)
+    ref_cats = [R.thrust_category(x, ffcal) for x in flows]
+    sep_f = abs(f_a / f_i - 1.0)
+
+    ok, cats = _call(acc, 'category-raised', 'get_thrust_cat_cruise', S['eutils'].get_thrust_cat_cruise, ff, ffv)
+    if ok:
+        cl = [str(getattr(c, 'value', c)) for c in cats]
+        acc.compared += 1
+        if cl != ref_cats:
+            j = next((i for i in range(min(len(cl), n)) if cl[i] != ref_cats[i]), 0)
+            acc.add('near-thrust-category', f'ff={flows[j]!r} ff_cal={ffcal} AEIC={cl[j] if j < len(cl) else None} reference={ref_cats[j]}')
+
+    comparable = []
+    for label in ('hc', 'co'):
+        ei = eis[label]
+        ok, got = _call(acc, 'hcco-raised', f'EI_HCCO[{label}] ff_cal={ffcal} EI={ei}', S['hcco'].EI_HCCO, ff, _tmv(ei), ffv, tv, pv)
+        if not ok:
+            continue
+        got = np.asarray(got, float)
+        acc.compared += 1
+        if got.shape != (n,):
+            acc.add('shape', f'{label} shape {got.shape}')
+            continue
+        if np.any(np.isnan(got)) or np.any(got < 0):
+            acc.add('non-finite' if np.any(np.isnan(got)) else 'negative', f'{label} EI with ff_cal={ffcal} EI={ei}: {got.tolist()[:10]}')
+            continue
+        brk, level, lower = R.hcco_fit(ei, ffcal)
+        raw = lower.raw_slope
+        well = (f_a == f_i or sep_f >= NEAR_MIN_SEP) and (raw == 0.0 or abs(raw) >= NEAR_MIN_SEP)
+        comparable.append(well)
+        if not well:
+            continue
+        corr = math.pow(t / 288.15, 3.3) / math.pow(p / 101325.0, 1.02)
+        for j, x in enumerate(flows):
+            if x <= 0:
+                continue
+            expo = lower.slope * math.log(x / lower.base_f) if lower.slope != 0.0 else 0.0
+            if abs(expo) > NEAR_MAX_EXPONENT:
+                continue
+            lo = lower(x)
+            val, alt = (lo, level) if x < brk else (level, lo)
+            k = (1.0 + R.ACRP_SLOPE * (x - f_i)) if x < f_i else 1.0
+            val, alt = val * k * corr, alt * k * corr
+            tol = RT + (4e-15 * max(1.0, abs(expo)) / sep_f if sep_f > 0 else 0.0)
+            if raw != 0.0:
+                tol += 4e-15 * max(1.0, abs(expo)) / max(abs(math.log(ei[1] / ei[0])), 1e-300) if ei[1] != ei[0] else 0.0
+            g = float(got[j])
+            acc.compared += 1
+            if math.isfinite(g) and abs(g - val) <= tol * max(abs(g), abs(val)):
+                continue
+            # within a few ulp (or within the slope's rounding) of a break the other segment is acceptable
+            if x != brk and abs(x - brk) <= max(4 * math.ulp(brk), tol * brk) and math.isfinite(g) and abs(g - alt) <= max(tol, 1e-6) * max(abs(g), abs(alt)):
+                continue
+            acc.add(
+                f'near-hcco-{label}',
+                f'{label} EI at ff={x!r}: AEIC={g!r} reference={val!r} (break={brk!r}, raw slope={raw!r}, idle/approach flow separation={sep_f:.3g}); ff_cal={ffcal} EI={ei} h={h}',
+            )
+
+    # -- NOx: the least-squares line is well conditioned unless all four flows nearly coincide; then only
+    #    the centroid (where every least-squares line passes through the mean) is compared
+    nox = eis['nox']
+    ok, res = _call(acc, 'nox-raised', f'BFFM2_EINOx ff_cal={ffcal} EI={nox}', S['nox'].BFFM2_EINOx, ff, _tmv(nox), ffv, tv, pv)
+    if ok:
+        nx = np.asarray(res.NOxEI, float)
+        acc.compared += 1
+        if nx.shape != (n,):
+            acc.add('shape', f'NOx shape {nx.shape}')
+        elif np.any(np.isnan(nx)) or np.any(nx < 0):
+            acc.add('non-finite', f'NOx EI with ff_cal={ffcal} EI={nox}: {nx.tolist()[:10]}')
+        else:
+            spread = max(ffcal) / min(ffcal) - 1.0
+            if spread >= 1e-2:
+                curve = R.bffm2_nox_curve(nox, ffcal, t, p)
+                for j, x in enumerate(flows):
+                    if x > 0:
+                        acc.cmp('near-nox', lambda j=j: f'NOx EI at ff={flows[j]!r} ff_cal={ffcal} EI={nox} h={h}', nx[j], curve(x))
+            for j in range(n):
+                fno = R.nox_speciation(ref_cats[j])[0]
+                acc.cmp('near-nox', lambda j=j: f'noProp at ff={flows[j]!r} ff_cal={ffcal}', res.noProp[j], fno, 1e-12)
+    oc = 'compared' if comparable and all(comparable) else ('partly-compared' if any(comparable) else 'sanity-only')
+    return {'outcome': f'near:{case["what"]}:{oc}', 'nontrivial': acc.compared > 0, 'violations': acc.v}
+
+
+def _run_nearsn(case):
+    """SCOPE11 with one smoke number just above 0 (0 itself means 'no measurement'): the published
+    correlation has no threshold, so the value is the formula's."""
+    S = _STATE
+    acc = _Acc()
+    sn = [2.1, 2.1, 11.2, 13.4]
+    sn[case['mode']] = float(case['sn'])
+    et = case['et']
+    TM = list(S['ThrustMode'])
+    ok, prof = _call(acc, 'scope11-raised', 'calculate_PMnvolEI_scope11', S['pmnvol'].calculate_PMnvolEI_scope11, _tmv(sn), et, 5.1)
+    if ok:
+        for mo, name, x in zip(TM, R.MODES, sn):
+            acc.cmp('near-scope11', f'nvPM mass EI mode={name} SN={x!r} type={et}', prof[mo], R.scope11_mass(x, name, et, 5.1))
+    return {'outcome': f'near-sn:{et}', 'nontrivial': acc.compared > 0, 'violations': acc.v}
 
 
 # --------------------------------------------------------------------------- input representations
@@ -1711,7 +1917,7 @@ def _run_meem(case):
 
 # --------------------------------------------------------------------------- dispatch
 
-_RUN = {'repr': _run_repr, 'degen': _run_degen, 'ffm2p': _run_ffm2p, 'reuse': _run_reuse, 'cat': _run_cat, 'isa': _run_isa, 'chain': _run_chain, 'sox': _run_sox, 's11': _run_s11, 'foa3': _run_foa3, 'meem': _run_meem}
+_RUN = {'near': _run_near, 'nearsn': _run_nearsn, 'repr': _run_repr, 'degen': _run_degen, 'ffm2p': _run_ffm2p, 'reuse': _run_reuse, 'cat': _run_cat, 'isa': _run_isa, 'chain': _run_chain, 'sox': _run_sox, 's11': _run_s11, 'foa3': _run_foa3, 'meem': _run_meem}
 
 
 def run_case(case):
